@@ -191,7 +191,7 @@ func gen(args []string) {
 		static := hx.Pick(r, staticChoices)
 		me := hx.Pick(r, []int{-1, -1, 300, 5000})
 		if r.Chance(1, 40) {
-			me = 2000 // the forwarder has been up for longer than this window before its first post (see runCase)
+			me = 3000 // the forwarder has been up for longer than this window before its first post (see runCase)
 		}
 		head := []string{"cfg", strconv.Itoa(r.Range(1, 8)), strconv.Itoa(r.Range(1, 8)), strconv.Itoa(r.Range(1, 4)), strconv.Itoa(r.Range(1, 8)),
 			strconv.Itoa(me), map[bool]string{true: "ticker", false: "manual"}[ticker], strconv.Itoa(len(dyn))}
@@ -258,7 +258,7 @@ func gen(args []string) {
 			default:
 				if r.Bool() {
 					script = []string{hx.Pick(r, okKinds)}
-				} else if thorough && me != 2000 && r.Chance(1, 4) {
+				} else if thorough && me != 3000 && r.Chance(1, 4) {
 					script = []string{hx.Pick(r, failKinds), hx.Pick(r, failKinds), hx.Pick(r, okKinds)}
 				} else {
 					script = []string{hx.Pick(r, failKinds), hx.Pick(r, okKinds)}
@@ -777,10 +777,10 @@ func runCase(line string) string {
 	if err != nil {
 		return "ERR " + err.Error()
 	}
-	if tc.me == 2000 {
+	if tc.me == 3000 {
 		// a forwarder that has been running for longer than its retry window: the window of a request starts at
 		// the request's first attempt, not at start-up
-		time.Sleep(2100 * time.Millisecond)
+		time.Sleep(3100 * time.Millisecond)
 	}
 	cs := &capStatser{ch: make(chan time.Duration), vals: map[string]uint64{}, done: make(chan struct{}, 1)}
 	mctx, mcancel := context.WithCancel(stats.NewContext(context.Background(), cs))
